@@ -340,6 +340,8 @@ package multiplex
 //@   requires order: locksBelow(sesh.streamsM)
 //@   ensures seqNeverReset: s.writingFrame.Seq == old(s.writingFrame.Seq) || nextSeq(old(s.writingFrame.Seq), s.writingFrame.Seq)
 //@   ensures passiveSendsNothing: !active ==> s.writingFrame.Seq == old(s.writingFrame.Seq)
+//@   # the table keeps a nil tombstone for the id, so that late frames of the dead stream are dropped instead of re-creating it
+//@   ensures tombstone: ret0 == nil && !sesh.Singleplex ==> mapHas(sesh.streams, s.id) && sesh.streams[s.id] == nil
 //@   ensures idKept: s.writingFrame.StreamID == old(s.writingFrame.StreamID)
 //@   modifies *
 //@   preserves Frame.StreamID, Stream.id, Stream.session, Session.sb, SessionConfig.MsgOnWireSizeLimit, Session.maxStreamUnitWrite, Session.streamSendBufferSize, SessionConfig.Unordered, SessionConfig.Valve, SessionConfig.Singleplex, Obfuscator.payloadCipher, switchboard.session, switchboard.valve, heap(B_Slice)
@@ -368,3 +370,30 @@ package multiplex
 //@   loop 0 invariant sesh: s.session != nil && seshOK(s.session) && s.session.sb.session != nil && s.session.sb.valve != nil
 //@   loop 0 invariant nolocks: holdsNone()
 //@   loop 0 invariant id: s.writingFrame.StreamID == old(s.writingFrame.StreamID)
+
+// ---------------------------------------------------------------------------------------------
+// datagramBufferedPipe (C14): a FIFO of whole datagrams. Everything is guarded by rwCond.L; the
+// monitor invariant ties the length queue to the byte buffer. acq(e) = e in the state found at the
+// most recent acquisition of the lock (Lock or return from Wait).
+// ---------------------------------------------------------------------------------------------
+//@ import "io"
+//@ guardedby datagramBufferedPipe.rwCond.L: datagramBufferedPipe.pLens, elems(datagramBufferedPipe.pLens), buffer(datagramBufferedPipe.buf), datagramBufferedPipe.closed, datagramBufferedPipe.rDeadline, datagramBufferedPipe.timeoutTimer
+//@ lockinv datagramBufferedPipe.rwCond.L: queueOK: self.buf != nil && self.rwCond != nil && buflen(self.buf) == sumInts(self.pLens) && (forall i int :: 0 <= i && i < len(self.pLens) ==> self.pLens[i] >= 0)
+
+//@ func (*datagramBufferedPipe).broadcastAfter
+//@   flag trusted
+//@   modifies d.timeoutTimer
+
+// Read: returns exactly the head datagram, whole, or leaves the queue untouched.
+//@ func (*datagramBufferedPipe).Read
+//@   requires d.rwCond != nil && holdsNone()
+//@   ensures eof: ret1 == io.EOF ==> ret0 == 0 && d.closed && len(d.pLens) == 0
+//@   ensures shortBufferLeavesQueue: ret1 == io.ErrShortBuffer ==> ret0 == 0 && sameSlice(d.pLens, acq(d.pLens)) && buflen(d.buf) == acq(buflen(d.buf)) && len(d.pLens) > 0 && d.pLens[0] > len(target)
+//@   ensures wholeDatagram: ret1 == nil ==> len(acq(d.pLens)) > 0 && ret0 == acq(d.pLens[0]) && ret0 <= len(target) && (forall i int :: 0 <= i && i < ret0 ==> target[i] == acq(bufbyte(d.buf, i)))
+//@   ensures consumedExactlyHead: ret1 == nil ==> len(d.pLens) == len(acq(d.pLens)) - 1 && buflen(d.buf) == acq(buflen(d.buf)) - ret0 && (forall j int :: 0 <= j && j < len(d.pLens) ==> d.pLens[j] == acq(d.pLens[j+1]))
+//@   ensures errorsConsumeNothing: ret1 != nil ==> ret0 == 0
+//@   flag noframe
+//@   loop 0 invariant lock: holdsOnly(d.rwCond.L) && d.rwCond != nil
+//@   loop 0 invariant fresh: sameSlice(d.pLens, acq(d.pLens)) && buflen(d.buf) == acq(buflen(d.buf)) && d.buf == acq(d.buf) && d.closed == acq(d.closed)
+//@   loop 0 invariant sameContents: (forall i int :: 0 <= i && i < len(d.pLens) ==> d.pLens[i] == acq(d.pLens[i])) && (forall k int :: 0 <= k && k < buflen(d.buf) ==> bufbyte(d.buf, k) == acq(bufbyte(d.buf, k)))
+//@   loop 0 invariant inv: d.buf != nil && buflen(d.buf) == sumInts(d.pLens) && (forall i int :: 0 <= i && i < len(d.pLens) ==> d.pLens[i] >= 0)
